@@ -1,29 +1,23 @@
-"""dev helper: python3-vt dev_run.py <contracts module> [qualname substring]"""
-import sys, time, importlib, traceback
+"""dev helper: python3-vt dev_run.py <contracts module> [qualname substring] [-t ms] [-k vcname-substr] [-v]"""
+import sys, time, importlib
 sys.path.insert(0, '/verif')
-from lianvc.engine import Exec, Unsupported
-from lianvc import solve
+from lianvc import runner
 mod = importlib.import_module('contracts.' + sys.argv[1])
 reg = mod.build()
-flt = sys.argv[2] if len(sys.argv) > 2 else ''
+flt = sys.argv[2] if len(sys.argv) > 2 and not sys.argv[2].startswith('-') else ''
+TO = int(sys.argv[sys.argv.index('-t') + 1]) if '-t' in sys.argv else 10000
+KSEL = sys.argv[sys.argv.index('-k') + 1] if '-k' in sys.argv else ''
 for key, c in reg.contracts.items():
     if flt not in c.qualname or c.opaque or c.trusted: continue
     t = time.time()
-    try:
-        ex = Exec(reg, c)
-        vcs = ex.run()
-    except Unsupported as e:
-        print('UNSUPPORTED', c.name, e); continue
-    except Exception:
-        traceback.print_exc(); continue
-    gen = time.time() - t
-    bad = 0
-    for vc in vcs:
-        r = solve.discharge(vc, 10000)
-        ok = (r['verdict'] == 'unsat') if vc.kind != 'cover' else (r['verdict'] == 'sat')
-        if r['time_s'] > 2: print('   SLOW %.1fs' % r['time_s'], r['name'], r['verdict'])
+    fr = runner.verify_function(reg, c, TO)
+    if fr.error:
+        print('ERROR', c.name, fr.error[0], fr.error[1][-1500:]); continue
+    for r in fr.results:
+        if KSEL not in r['name']: continue
+        ok = (r['verdict'] == 'unsat') if r['kind'] != 'cover' else (r['verdict'] == 'sat')
+        if r['time_s'] > 2 and ok: print('   SLOW %.1fs' % r['time_s'], r['name'], r['verdict'], r['backend'])
         if not ok:
-            bad += 1
             print('   FAIL', r['name'], r['verdict'], r['reason'], '%.2fs' % r['time_s'])
             if '-v' in sys.argv and r.get('model'): print('      ', r['model'])
-    print(f'{c.name}: {len(vcs)} VCs, {bad} failed, paths={ex.paths}, gen {gen:.2f}s total {time.time()-t:.2f}s')
+    print(f"{c.name}: {len(fr.results)} VCs, {len(fr.failed)} failed, paths={fr.paths}, gen {fr.gen_s:.2f}s total {time.time()-t:.2f}s")
